@@ -9,6 +9,7 @@ package main
 
 import (
 	"context"
+	"encoding/json"
 	"errors"
 	"flag"
 	"fmt"
@@ -702,9 +703,81 @@ func (x *hist) run(maxSteps int) {
 	}
 }
 
-func runHistory(out *os.File, hid int, seed uint64, prof string, maxSteps int) (string, int) {
+// findCand maps a recorded event to an enabled candidate of the current state (nil: not enabled, the event is skipped)
+func (x *hist) findCand(ev Ev) *cand {
+	kinds := map[string]control.Kind{"iter": control.KTop, "visit": control.KVisit, "runbegin": control.KRunEntry, "runend": control.KRunBody,
+		"deliver": control.KCancel, "return": control.KReturn}
+	switch ev.T {
+	case "schedule", "cancel", "tick":
+		return &cand{ev: ev}
+	case "reload":
+		if ev.DS < len(x.sets) {
+			return &cand{ev: ev}
+		}
+		return nil
+	case "fire":
+		if ev.ID < len(x.h.Jobs) && x.armed[ev.ID] && x.created[ev.ID]+x.delay[ev.ID] <= x.clock {
+			return &cand{ev: ev}
+		}
+		return nil
+	}
+	k, ok := kinds[ev.T]
+	if !ok {
+		return nil
+	}
+	for _, p := range x.h.ParkedList() {
+		if p.Kind != k || p.Job.Idx != ev.ID {
+			continue
+		}
+		if (k == control.KVisit || k == control.KRunEntry || k == control.KRunBody) && num(p.Stage) != ev.N {
+			continue
+		}
+		if ev.T == "runend" && ev.O == "ctx" && (p.Job.Runner == nil || !p.Job.Runner.CtxCanceled()) {
+			return nil
+		}
+		return &cand{ev: ev, parked: p}
+	}
+	return nil
+}
+
+func (x *hist) replay(events []Ev) {
+	for _, ev := range events {
+		c := x.findCand(ev)
+		if c == nil {
+			continue
+		}
+		if c.ev.T == "fire" {
+			stopped := false
+			_ = x.r.ReadJob(uuid.FromStringOrNil(x.h.Jobs[c.ev.ID].UUID), func(j *prunner.PipelineJob) { stopped = !j.VerifHasTimer() })
+			if stopped {
+				x.armed[c.ev.ID] = false
+				continue
+			}
+		}
+		res := x.apply(*c)
+		if !x.quiesce() {
+			return
+		}
+		x.fillTodo(*c)
+		hutil.JSONLine(x.out, Step{Kind: "step", Ev: c.ev, Res: res, Snap: x.snapshot()})
+		x.steps++
+		if x.failure != "" {
+			return
+		}
+	}
+}
+
+type replayFile struct {
+	Sets   []DefSet `json:"sets"`
+	Events []Ev     `json:"events"`
+}
+
+func runHistory(out *os.File, hid int, seed uint64, prof string, maxSteps int, rp *replayFile) (string, int) {
 	rng := hutil.NewRng(seed)
 	sets := genDefSets(rng, prof)
+	if rp != nil {
+		sets = rp.Sets
+	}
 	h := control.New()
 	defer h.Close()
 	ctx, cancel := context.WithCancel(context.Background())
@@ -719,7 +792,11 @@ func runHistory(out *os.File, hid int, seed uint64, prof string, maxSteps int) (
 		x.pipesSeen[p.Name] = true
 	}
 	hutil.JSONLine(out, map[string]interface{}{"kind": "begin", "hid": hid, "seed": seed, "profile": prof, "sets": sets})
-	x.run(maxSteps)
+	if rp != nil {
+		x.replay(rp.Events)
+	} else {
+		x.run(maxSteps)
+	}
 	// let everything that is still parked end, so that no goroutine leaks into the next history
 	for k := 0; k < 2000; k++ {
 		ps := h.ParkedList()
@@ -740,6 +817,7 @@ func main() {
 	outp := flag.String("out", "", "output file")
 	maxSteps := flag.Int("steps", 60, "max events per history before the drain")
 	only := flag.Int("hid", -1, "only this history")
+	replay := flag.String("replay", "", "replay the events of this file (JSON: sets, events) instead of generating")
 	flag.Parse()
 	out := os.Stdout
 	if *outp != "" {
@@ -751,13 +829,27 @@ func main() {
 		out = f
 	}
 	log.SetHandler(discard.Default)
+	if *replay != "" {
+		b, err := os.ReadFile(*replay)
+		if err != nil {
+			panic(err)
+		}
+		var rp replayFile
+		if err := json.Unmarshal(b, &rp); err != nil {
+			panic(err)
+		}
+		if fail, _ := runHistory(out, 0, *seed, *prof, *maxSteps, &rp); fail != "" {
+			fmt.Fprintf(os.Stderr, "replay: %s\n", fail)
+		}
+		return
+	}
 	master := hutil.NewRng(*seed)
 	for i := 0; i < *n; i++ {
 		s := master.Next()
 		if *only >= 0 && *only != i {
 			continue
 		}
-		fail, _ := runHistory(out, i, s, *prof, *maxSteps)
+		fail, _ := runHistory(out, i, s, *prof, *maxSteps, nil)
 		if fail != "" {
 			fmt.Fprintf(os.Stderr, "history %d: %s\n", i, fail)
 		}
